@@ -159,7 +159,7 @@ def run(ctx, scope="C15"):
     if thorough:
         gens = [("GenFederation_thorough.cfg", "T", 9000), ("GenFederation_clients.cfg", "T", 1500), ("GenFederation_seq_thorough.cfg", "S", 1500)]
     else:
-        gens = [("GenFederation.cfg", "T", 800), ("GenFederation_clients.cfg", "T", 650), ("GenFederation_seq.cfg", "S", 350)]
+        gens = [("GenFederation.cfg", "T", 650), ("GenFederation_clients.cfg", "T", 500), ("GenFederation_seq.cfg", "S", 250)]
     genruns = [(g, pool.submit(ctx.tlc, "GenFederation", g[0], workers=1, count=False, timeout=2400, env=sel())) for g in gens]
     design = ideal = design2 = None
     devruns, obsruns = [], []
